@@ -583,6 +583,10 @@ variable that, at that point, holds `NewTLSDecryptServiceWrapper(plain service, 
 whenever `data.UseConnectionClientID` is set. Regenerated from the source. -/
 theorem fact_every_registration_wrapped : ∀ r ∈ registrations, r.holds = "tls" := by decide
 
+/-- the service handed to `OngRPCServerInit` subscribers (which may register further gRPC services around it)
+is the wrapped one as well -/
+theorem fact_server_init_hook_wrapped : TlsIdentity.serverInitHook = [("OngRPCServerInit", "newService", "tls")] := by decide
+
 /-- every RPC of the wrapper table belongs to a registered service, and every service of the API is registered -/
 theorem fact_every_rpc_registered :
     (∀ row ∈ rpcTable, (regOf row.name).isSome = true) ∧
